@@ -60,9 +60,11 @@ def interruptions(obs):
     out = []
     pending_suspends = 0
     pending_aborts = 0
+    req_idx = []
     for i, t in enumerate(obs.timeline):
         if t[0] == "suspend_req":
             pending_suspends += 1
+            req_idx.append(i)
         elif t[0] == "inject" and t[1].split(":")[0] == "abort":
             pending_aborts += 1
         elif t[0] == "call" and t[1] == "abort":
@@ -80,6 +82,10 @@ def interruptions(obs):
                     # request_suspend outside a resumable section goes straight to 'aborting'
                     pending_suspends -= 1
                     out.append(("suspend", i, resumability_at(obs, i)))
+    # suspension requests that never changed the state (they landed when the plan was over): they still
+    # count as "the interruption was a suspension requested in a (non-)resumable place" for C08's reading
+    for i in req_idx[len(req_idx) - pending_suspends :] if pending_suspends else ():
+        out.append(("suspend-late", i, resumability_at(obs, i)))
     return out
 
 
